@@ -109,6 +109,12 @@ class MaskedAutoregressive(AbstractBijection):
         y, rank = init
         nn_input = y if condition is None else jnp.hstack((y, condition))
         transformer_params = self.masked_autoregressive_mlp(nn_input)
+        # Only element ``rank`` is used below. The parameters of the later elements are
+        # computed from not yet inverted inputs and can be extreme (e.g. a zero scale),
+        # which would give nan gradients (0 * inf) although they are discarded.
+        dim = self.shape[-1]
+        keep = jnp.repeat(jnp.arange(dim) == rank, transformer_params.shape[0] // dim)
+        transformer_params = jnp.where(keep, transformer_params, 0)
         transformer = self._flat_params_to_transformer(transformer_params)
         x = transformer.inverse(y)
         x = y.at[rank].set(x[rank])
